@@ -37,6 +37,21 @@ fn main() {
         }
         s.push_str("            _ => \"SKIP\".to_string(),\n        }\n    };\n}\n");
     }
+    // pair dispatch for conversions / comparisons: every (source family, destination family) with fracs in {0, mid, n} each
+    fn three(n: u32) -> Vec<u32> { vec![0, if n == 8 { 3 } else { n / 2 - 1 }, n] }
+    let fam: Vec<(bool, u32)> = vec![(false, 8), (false, 16), (false, 32), (false, 64), (false, 128), (true, 8), (true, 16), (true, 32), (true, 64), (true, 128)];
+    let tyname = |sg: bool, n: u32, f: u32| format!("substrate_fixed::Fixed{}{}<substrate_fixed::types::extra::U{}>", if sg { "I" } else { "U" }, n, f);
+    s.push_str("macro_rules! sfx_dispatch_pair {\n    ($s1:expr, $n1:expr, $f1:expr, $s2:expr, $n2:expr, $f2:expr, $run:ident ( $($arg:expr),* )) => {\n        match ($s1, $n1, $f1, $s2, $n2, $f2) {\n");
+    for &(s1, n1) in &fam { for f1 in three(n1) { for &(s2, n2) in &fam { for f2 in three(n2) {
+        s.push_str(&format!("            ({}, {}, {}, {}, {}, {}) => $run::<{}, {}>($($arg),*),\n", s1, n1, f1, s2, n2, f2, tyname(s1, n1, f1), tyname(s2, n2, f2)));
+    } } } }
+    s.push_str("            _ => \"SKIP\".to_string(),\n        }\n    };\n}\n");
+    // small dispatch for integer conversions: fracs {0, 1, mid, n-1, n}
+    s.push_str("macro_rules! sfx_dispatch_small {\n    ($s:expr, $n:expr, $f:expr, $run:ident ( $($arg:expr),* )) => {\n        match ($s, $n, $f) {\n");
+    for &(s1, n1) in &fam { for f1 in [0, 1, if n1 == 8 { 3 } else { n1 / 2 - 1 }, n1 - 1, n1] {
+        s.push_str(&format!("            ({}, {}, {}) => $run::<{}>($($arg),*),\n", s1, n1, f1, tyname(s1, n1, f1)));
+    } }
+    s.push_str("            _ => \"SKIP\".to_string(),\n        }\n    };\n}\n");
     let out = PathBuf::from(env::var("OUT_DIR").unwrap());
     fs::write(out.join("dispatch.rs"), s).unwrap();
 }
